@@ -9,7 +9,9 @@
 (***************************************************************************)
 EXTENDS LangGen
 Names == {"counter", "lag", "acc7", "pacc", "dl", "nest", "dbl", "apply", "mk", "swap", "f",
-          "x", "inc", "a", "b", "g", "k", "y", "p", "v1", "v2", "v3", "v4"}
+          "x", "inc", "a", "b", "g", "k", "y", "p", "v1", "v2", "v3", "v4",
+          \* field names, the names of the record / closure templates
+          "q", "r", "n", "v", "bump", "inner", "pick", "mkr", "sumto"}
 Sigma == [n \in Names |-> "r_" \o n]
 RenameInvariant ==
   Complete => \A inp \in Inputs :
